@@ -382,6 +382,11 @@ fn eps0_backoff_cases(ctx: &Ctx) {
         (AnyGT::SqrtDom, vec![0.3], "SqrtDom(1)"),
         (AnyGT::LogX, vec![0.4, 0.6], "Gamma(2,1)^2"),
         (AnyGT::NanPocket, vec![0.9], "NanPocket(1)"),
+        // extreme scales: the search needs ~17 halvings (sd 1e-5) / ~14-17 doublings (sd 1e4, 1e5) from the unit step
+        (AnyGT::Gauss2D(DiffableGaussian2D::new([0.0, 0.0], [[1e-10, 0.0], [0.0, 1e-10]])), vec![0.0, 0.0], "Gaussian sd 1e-5 (start at the mode)"),
+        (AnyGT::Gauss2D(DiffableGaussian2D::new([0.0, 0.0], [[1e-10, 0.0], [0.0, 4e-10]])), vec![1e-5, -2e-5], "Gaussian sd 1e-5/2e-5"),
+        (AnyGT::Gauss2D(DiffableGaussian2D::new([0.0, 0.0], [[1e8, 0.0], [0.0, 1e8]])), vec![1.0, 1.0], "Gaussian sd 1e4"),
+        (AnyGT::Gauss2D(DiffableGaussian2D::new([0.0, 0.0], [[1e10, 0.0], [0.0, 1e10]])), vec![3e4, -1e5], "Gaussian sd 1e5"),
     ];
     let moms: Vec<f64> = vec![-3.0, -1.5, -0.6, 0.6, 1.5, 3.0];
     for (target, start, tname) in cases {
